@@ -10,6 +10,7 @@ package http2_test
 // the decoded wire history of every connection.
 
 import (
+	"errors"
 	"fmt"
 	"strconv"
 	"strings"
@@ -29,12 +30,13 @@ type c17Case struct {
 const c17NoLimit = 1 << 31
 
 type c17ConnMon struct {
-	limit      int64 // limit in force after the events of this step
-	prevLimit  int64 // limit in force at the start of this step
-	maxID      uint32
-	cntBefore  int  // WB: ClientConn's own slot count before this step's event
-	fullBefore bool // WB: the connection had no free slot before this step's event
-	waitBefore int  // WB: requests waiting for a slot / holding a reservation before the event
+	limit        int64 // limit in force after the events of this step
+	prevLimit    int64 // limit in force at the start of this step
+	maxID        uint32
+	wakeDeferred bool // a slot was given back while a body Close was pending and a request still waits: the waiter clause is judged once no Close is pending
+	cntBefore    int  // WB: ClientConn's own slot count before this step's event
+	fullBefore   bool // WB: the connection had no free slot before this step's event
+	waitBefore   int  // WB: requests waiting for a slot / holding a reservation before the event
 
 	// server-not-reading window: blockMax is the largest limit that can be in
 	// force at the client at any time since the server stopped reading (while
@@ -273,10 +275,43 @@ func (m *c17Mon) observe(frames map[int][]c15Frame) {
 				if c.openCount() > 0 {
 					m.feat["concurrent-streams"] = true
 				}
+				for _, r := range m.h.reqs {
+					if r.slow != nil && r.slow.pending() {
+						m.feat["stream-opened-while-body-close-pending"] = true
+						if r.big && !m.onWire(r.idx) {
+							m.feat["stream-opened-while-clean-up-of-never-sent-request-parked"] = true
+						}
+					}
+				}
+				if m.feat["never-sent-request-body-close-released"] {
+					m.feat["stream-opened-after-never-sent-request-cleaned-up"] = true
+				}
 			}
 			c.track(f)
 		}
 	}
+}
+
+// closePending: the Transport is inside some request body's Close.
+func (m *c17Mon) closePending() bool {
+	for _, r := range m.h.reqs {
+		if r.slow != nil && r.slow.pending() {
+			return true
+		}
+	}
+	return false
+}
+
+// onWire: some connection has seen HEADERS of request req.
+func (m *c17Mon) onWire(req int) bool {
+	for _, c := range m.h.connList() {
+		for _, st := range c.streams {
+			if st.req == req {
+				return true
+			}
+		}
+	}
+	return false
 }
 
 // quiescent evaluates the at-rest clauses. freed: the event of this step was one
@@ -290,6 +325,9 @@ func (m *c17Mon) quiescent() {
 		for _, r := range h.reqs {
 			if !r.finished() || r.err == nil || r.cancelled {
 				continue
+			}
+			if r.big && errors.Is(r.err, C17ErrRequestHeaderListSize) {
+				continue // its header list is larger than the server allows: it is not an excess request
 			}
 			reset := false
 			for _, c := range h.connList() {
@@ -310,9 +348,18 @@ func (m *c17Mon) quiescent() {
 		if !ok || !c.usable() || pk.Closed || pk.GoAway {
 			continue
 		}
+		if pk.PendingRequests == 0 || cnt >= int(pk.MaxConcurrentStreams) {
+			cm.wakeDeferred = false
+		}
 		if pk.PendingRequests > 0 {
 			m.feat["request-waiting-for-slot"] = true
-			if cnt < cm.cntBefore && cnt < int(pk.MaxConcurrentStreams) {
+			freed := cnt < cm.cntBefore || cm.wakeDeferred
+			if freed && cnt < int(pk.MaxConcurrentStreams) && m.closePending() {
+				// the clean-up of the request that gave the slot back is parked in its body's Close and
+				// has not reached the point where it wakes the waiters: judged when the Close has returned
+				cm.wakeDeferred = true
+				m.feat["waiter-wake-up-deferred-by-pending-body-close"] = true
+			} else if freed && cnt < int(pk.MaxConcurrentStreams) {
 				m.fail("wait/waiter-not-started-after-slot-freed/"+m.mode(), "conn %d: %d request(s) still wait for a slot although this step freed one (slots in use %d -> %d, limit %d); history:%s", c.idx, pk.PendingRequests, cm.cntBefore, cnt, pk.MaxConcurrentStreams, h.history())
 			}
 		}
@@ -329,6 +376,10 @@ var c17Shapes = map[string]string{
 	"u": "trl-unset", // body + announced trailer, never filled in: no trailer fields to send
 	"e": "trl-empty", // body + empty non-nil Request.Trailer
 	"s": "stalled",   // body that does not reach EOF before event D<i>: the request half stays open
+	// locally failing requests and slow body Close (event K<i> lets the Close of request i's body return):
+	"g": "big",           // GET whose header list exceeds the peer's MAX_HEADER_LIST_SIZE once announced: fails after its stream id was assigned, nothing written
+	"c": "slowclose",     // body of undeclared length whose Close blocks until K<i>: the request's clean-up is parked, its slot stays taken
+	"h": "big-slowclose", // both: the failed request's clean-up is parked in Close while other requests go on
 }
 
 // c17Exec runs one case in the current bubble.
@@ -367,7 +418,9 @@ func c17Exec(t testing.TB, w *vx.W, cs c17Case) {
 				panic("unknown request shape " + ev)
 			}
 			h.request(kind)
-			if kind != "" {
+			if kind == "big" || kind == "slowclose" || kind == "big-slowclose" {
+				m.feat["local-failure-axis"] = true
+			} else if kind != "" {
 				m.feat["request-with-body"] = true
 			}
 		case ev[0] == 'D':
@@ -377,6 +430,17 @@ func c17Exec(t testing.TB, w *vx.W, cs c17Case) {
 				return
 			}
 			h.reqs[i-1].stall.release()
+		case ev[0] == 'K':
+			i, _ := strconv.Atoi(ev[1:])
+			if i < 1 || i > len(h.reqs) || h.reqs[i-1].slow == nil || !h.reqs[i-1].slow.pending() {
+				w.Outcome("pruned:body-close-not-pending")
+				return
+			}
+			m.feat["body-close-released"] = true
+			if h.reqs[i-1].big && !m.onWire(i-1) {
+				m.feat["never-sent-request-body-close-released"] = true
+			}
+			h.reqs[i-1].slow.release()
 		case ev[0] == 'C':
 			i, _ := strconv.Atoi(ev[1:])
 			if i < 1 || i > len(h.reqs) || h.reqs[i-1].cancelled || h.reqs[i-1].finished() {
@@ -393,10 +457,18 @@ func c17Exec(t testing.TB, w *vx.W, cs c17Case) {
 			}
 			cm := m.conn(c)
 			if ev[2] == 'n' {
-				c.settings()
+				if len(ev) > 3 && ev[3] == 'h' {
+					c.settings(Setting{ID: SettingMaxHeaderListSize, Val: c17HeaderListLimit})
+				} else {
+					c.settings()
+				}
 			} else {
 				k := int64(ev[2] - '0')
-				c.settings(Setting{ID: SettingMaxConcurrentStreams, Val: uint32(k)})
+				ss := []Setting{{ID: SettingMaxConcurrentStreams, Val: uint32(k)}}
+				if len(ev) > 3 && ev[3] == 'h' {
+					ss = append(ss, Setting{ID: SettingMaxHeaderListSize, Val: c17HeaderListLimit})
+				}
+				c.settings(ss...)
 				if k < cm.limit && int64(c.openCount()) > k {
 					m.feat["limit-lowered-below-open-count"] = true
 				}
@@ -475,6 +547,11 @@ func c17Exec(t testing.TB, w *vx.W, cs c17Case) {
 			c.resumeReading() // every case ends with the server reading again: what was stuck reaches the wire and is checked
 		}
 	}
+	for _, r := range h.reqs {
+		if r.slow != nil {
+			r.slow.release() // and with every body Close returning: parked clean-ups finish, waiters behind them start and are checked
+		}
+	}
 	time.Sleep(120 * time.Second)
 	m.observe(h.settle())
 	m.quiescent()
@@ -495,6 +572,20 @@ func c17Exec(t testing.TB, w *vx.W, cs c17Case) {
 	if m.feat["request-with-body"] {
 		feats = []string{"request-with-body"}
 		for _, k := range []string{"stream-open-after-response-ended", "request-while-slot-held-by-stream-whose-response-ended"} {
+			if m.feat[k] {
+				feats = append(feats, k)
+			}
+		}
+		w.Outcome(strings.Join(feats, "+"))
+	}
+	if m.feat["local-failure-axis"] {
+		feats = []string{"local-failure-axis"}
+		for _, r := range h.reqs {
+			if r.big && r.finished() && errors.Is(r.err, C17ErrRequestHeaderListSize) && !m.onWire(r.idx) {
+				m.feat["request-failed-before-headers"] = true
+			}
+		}
+		for _, k := range []string{"request-failed-before-headers", "stream-opened-while-body-close-pending", "stream-opened-while-clean-up-of-never-sent-request-parked", "stream-opened-after-never-sent-request-cleaned-up"} {
 			if m.feat[k] {
 				feats = append(feats, k)
 			}
@@ -528,7 +619,7 @@ func c17Exec(t testing.TB, w *vx.W, cs c17Case) {
 // and everything on other connections.
 func c17SecondWriter(h *c17cli, conns []*c17Conn, ev string) bool {
 	var target *c17Conn
-	if len(ev) >= 2 && ev[0] != 'C' && ev[0] != 'Q' && ev[0] != 'D' {
+	if len(ev) >= 2 && ev[0] != 'C' && ev[0] != 'Q' && ev[0] != 'D' && ev[0] != 'K' {
 		if i := int(ev[1] - 'a'); i >= 0 && i < len(conns) {
 			target = conns[i]
 		}
@@ -567,6 +658,8 @@ func c17SecondWriter(h *c17cli, conns []*c17Conn, ev string) bool {
 			if last == c.idx && i >= 1 && i <= len(h.reqs) && !h.reqs[i-1].finished() && (stuck || pend) {
 				return true // clean-up of the cancelled request takes the write lock; the abort wakes a waiter
 			}
+		case 'K':
+			return true // the released clean-up takes the write lock (slow-Close shapes are not combined with B/U: unreachable)
 		case 'D':
 			i, _ := strconv.Atoi(ev[1:])
 			for _, a := range h.assignList() {
@@ -595,6 +688,7 @@ func c17RunCase(c *vx.Ctx, w *vx.W, cs c17Case) {
 type c17GenState struct {
 	nQ        int
 	stalled   [8]bool // request i has a stalled body that has not been released
+	slow      [8]bool // request i has a body whose Close blocks and has not been released
 	cancelled [8]bool
 	nS        [2]int
 	nB        [2]int
@@ -620,6 +714,7 @@ type c17GenOpts struct {
 	refused bool
 	maxB    int    // "server stops reading" events per connection (each may be followed by "resumes reading")
 	shapes  string // request shapes besides the plain GET: suffixes of the Q event (keys of c17Shapes)
+	hdrList bool   // every server SETTINGS also carries MAX_HEADER_LIST_SIZE c17HeaderListLimit (event S<conn><k>h)
 }
 
 func c17GenNext(st *c17GenState, o c17GenOpts, emit func(ev string, apply func(*c17GenState))) {
@@ -627,7 +722,7 @@ func c17GenNext(st *c17GenState, o c17GenOpts, emit func(ev string, apply func(*
 		emit("Q", func(s *c17GenState) { s.nQ++ })
 		for _, sh := range o.shapes {
 			sh := sh
-			emit("Q"+string(sh), func(s *c17GenState) { s.nQ++; s.stalled[s.nQ] = sh == 's' })
+			emit("Q"+string(sh), func(s *c17GenState) { s.nQ++; s.stalled[s.nQ] = sh == 's'; s.slow[s.nQ] = sh == 'h' || sh == 'c' })
 		}
 	}
 	if st.nQ == 0 {
@@ -641,13 +736,20 @@ func c17GenNext(st *c17GenState, o c17GenOpts, emit func(ev string, apply func(*
 		if st.stalled[i] {
 			emit("D"+strconv.Itoa(i), func(s *c17GenState) { s.stalled[i] = false })
 		}
+		if st.slow[i] {
+			emit("K"+strconv.Itoa(i), func(s *c17GenState) { s.slow[i] = false })
+		}
 	}
 	for ci := 0; ci < o.conns; ci++ {
 		ci := ci
 		cn := string(rune('a' + ci))
 		if st.nS[ci] < o.maxS {
 			for _, k := range o.limits {
-				emit("S"+cn+string(k), func(s *c17GenState) { s.nS[ci]++ })
+				ev := "S" + cn + string(k)
+				if o.hdrList {
+					ev += "h"
+				}
+				emit(ev, func(s *c17GenState) { s.nS[ci]++ })
 			}
 		}
 		if st.blocked[ci] {
@@ -716,9 +818,11 @@ func c17Gen(mode string, depth int, o c17GenOpts, prefix []string, yield func(c1
 func TestVerif_C17(t *testing.T) {
 	vx.Run(t, "C17", func(c *vx.Ctx) {
 		depth := vx.Pick(c, 6, 8)
-		c.Rule(fmt.Sprintf("every statically legal sequence of 1..%d events (shortest first) over {Q new request (<=%d), C_i cancel request i, S<conn><k> server SETTINGS with MAX_CONCURRENT_STREAMS k in {0,1,2} or without the field (<=2 per connection), E<conn><j> response with END_STREAM on the j-th stream of the connection, R<conn><j> RST_STREAM(CANCEL), F<conn><j> RST_STREAM(REFUSED_STREAM) (thorough), P<conn> acknowledge the client's PINGs, B<conn> the server stops reading from the connection (the client's writes block: a request-header write gets stuck holding the connection's new-request lock and further requests handed to the connection queue behind it; <=1 per connection), U<conn> the server reads again}, in mode strict (Transport.StrictMaxConcurrentStreams, one connection) and mode pool (default Transport, two connections addressable; one level shallower), plus, for the request-shape axis, every sequence of 1..%d (pooled: 1..%d) events over the same alphabet without B/U/F and with limits {1,2}, where a new request is any of Q (GET, END_STREAM on the request HEADERS), Qk (3-byte body of declared length, END_STREAM on the last DATA), Qb (body of undeclared length, END_STREAM on an empty DATA), Qt (body + Request.Trailer announcing a key with a nil value that is filled in when the body reaches EOF, END_STREAM on the trailer HEADERS), Qu (the same, never filled in: no trailer fields to send), Qe (body + empty non-nil Request.Trailer), Qs (body that stalls after 3 bytes: the request half stays open, also after the response has ended) and D_i lets the stalled body of request i reach EOF (<=3 requests), and 1..%d events after the prefix [Q<shape>, Sa1] for each of the six body shapes in both modes (later requests plain or of that shape); plus seeded prefixes (three strict and two pooled ones with the server reading; pooled limit 2 with an idle connection whose server has stopped reading, pooled limit 2 with one request stuck in its header write and one queued behind it, strict limit 1 with a waiting request and the server not reading); each case runs a fresh real Transport in its own synctest bubble whose dialled connections end in the harness; every pool decision is observed through httptrace GotConn; at the end of every case the server reads again on every connection and 120 s of fake time pass (every retry back-off of the Transport expires) and the clauses are evaluated again; a case is non-trivial when all its events were applicable at run time", depth, vx.Pick(c, 3, 4), vx.Pick(c, 4, 5), vx.Pick(c, 4, 5), vx.Pick(c, 3, 4)))
+		c.Rule(fmt.Sprintf("every statically legal sequence of 1..%d events (shortest first) over {Q new request (<=%d), C_i cancel request i, S<conn><k> server SETTINGS with MAX_CONCURRENT_STREAMS k in {0,1,2} or without the field (<=2 per connection), E<conn><j> response with END_STREAM on the j-th stream of the connection, R<conn><j> RST_STREAM(CANCEL), F<conn><j> RST_STREAM(REFUSED_STREAM) (thorough), P<conn> acknowledge the client's PINGs, B<conn> the server stops reading from the connection (the client's writes block: a request-header write gets stuck holding the connection's new-request lock and further requests handed to the connection queue behind it; <=1 per connection), U<conn> the server reads again}, in mode strict (Transport.StrictMaxConcurrentStreams, one connection) and mode pool (default Transport, two connections addressable; one level shallower), plus, for the request-shape axis, every sequence of 1..%d (pooled: 1..%d) events over the same alphabet without B/U/F and with limits {1,2}, where a new request is any of Q (GET, END_STREAM on the request HEADERS), Qk (3-byte body of declared length, END_STREAM on the last DATA), Qb (body of undeclared length, END_STREAM on an empty DATA), Qt (body + Request.Trailer announcing a key with a nil value that is filled in when the body reaches EOF, END_STREAM on the trailer HEADERS), Qu (the same, never filled in: no trailer fields to send), Qe (body + empty non-nil Request.Trailer), Qs (body that stalls after 3 bytes: the request half stays open, also after the response has ended) and D_i lets the stalled body of request i reach EOF (<=3 requests), and 1..%d events after the prefix [Q<shape>, Sa1] for each of the six body shapes in both modes (later requests plain or of that shape); plus, for locally failing requests and slow body Close, every sequence of 1..%d (pooled: 1..%d) events from the empty Transport (<=4 requests, <=1 SETTINGS per connection with limit 1 or none) and 1..%d events after the prefixes [Q, Sanh] and [Q, Sa1h] (<=5 requests) in both modes, where every server SETTINGS also carries MAX_HEADER_LIST_SIZE 4096 (S<conn><k>h), a new request is Q, Qg (GET with a 5000-byte header field: once the limit is announced it is assigned a stream id and fails with ErrRequestHeaderListSize before anything is written; before that it is an ordinary request), Qc (3-byte body of undeclared length whose Close does not return before K_i, so the request's clean-up is parked and its slot stays taken) or Qh (both: the clean-up of the never-sent request is parked in Close while other requests open streams; after the prefixes only Q and Qh), and K_i lets the pending body Close of request i return; plus seeded prefixes (three strict and two pooled ones with the server reading; pooled limit 2 with an idle connection whose server has stopped reading, pooled limit 2 with one request stuck in its header write and one queued behind it, strict limit 1 with a waiting request and the server not reading); each case runs a fresh real Transport in its own synctest bubble whose dialled connections end in the harness; every pool decision is observed through httptrace GotConn; at the end of every case the server reads again on every connection and 120 s of fake time pass (every retry back-off of the Transport expires) and the clauses are evaluated again; a case is non-trivial when all its events were applicable at run time", depth, vx.Pick(c, 3, 4), vx.Pick(c, 4, 5), vx.Pick(c, 4, 5), vx.Pick(c, 3, 4), vx.Pick(c, 4, 6), vx.Pick(c, 4, 5), vx.Pick(c, 4, 5)))
 		c.Assume("limit in force for a new stream = the larger of the MAX_CONCURRENT_STREAMS values delivered before and during the step in which its HEADERS is observed (no limit before the first SETTINGS); a stream is open on the wire from its HEADERS until END_STREAM both ways or RST_STREAM either way (RFC 9113 5.1, 5.1.2: a stream whose response has ended keeps counting until the client has sent END_STREAM or either side RST_STREAM), whatever the client believes it has sent")
 		c.Assume("request shapes: bodies are 3 bytes, so flow control never delays them; trailer shapes use a body of undeclared length (declared length + trailers is not explored); a stalled body ends only by D_i, by the Transport closing it, or at the end of the case; request shapes are not combined with the server not reading (B/U) or REFUSED_STREAM retries")
+		c.Assume("locally failing requests: the only local failure explored is a header list larger than the announced MAX_HEADER_LIST_SIZE (deterministic); a request cancelled between the assignment of its stream id and its HEADERS write is not explored (it needs the request to wait for the connection's write mutex behind a stuck write, which testing/synctest cannot settle on, or a particular choice among ready select arms); these shapes are not combined with the server not reading (B/U), REFUSED_STREAM or the other body shapes; a body Close that never returns is not a case: every pending Close is released at the end of the case, before the final evaluation; such a request is not counted as an excess request by the strict clause (it fails with ErrRequestHeaderListSize, by design)")
+		c.Assume("while the Transport is inside a request body's Close, the waiter clause is deferred: a slot given back by a request whose clean-up is parked in Close (e.g. the reservation of a cancelled request that was queued for the new-request lock: decrStreamReservations does not wake waiters, the clean-up does so only after Close) need not start a waiter before the Close has returned; the clause is evaluated in the first step at whose end no Close is pending (progress delayed by a slow Close is outside the stated property)")
 		c.Assume("pool clause, black box: when a new request arrives, a connection is at its limit if (streams open on the wire) + (requests the pool handed to it on their first attempt, not handed elsewhere since, not finished, whose HEADERS have not appeared on it) >= the largest limit that can be in force at the client; retried attempts that have not opened a stream are not counted (a request in the Transport's retry back-off holds no slot and cannot be told apart from outside), so the count is a lower bound of the slots a correct client accounts for; only the first pool decision of the new request in its own step is judged")
 		c.Assume("while the server is not reading, and in the step in which it resumes, the limit in force is taken as the largest of the limit at the moment it stopped reading and every limit sent since (the client's read loop may be stuck writing an acknowledgement; streams admitted earlier reach the wire late)")
 		c.Assume("testing/synctest cannot settle while a goroutine waits for a sync.Mutex, so on a connection whose server is not reading at most one client write may be outstanding: events that could make a second goroutine want the connection's write lock while one write is stuck (SETTINGS to be acknowledged, responses/resets/cancellations whose clean-up takes the write lock, anything that could release a strict-mode waiter, a new request that would not queue on the new-request lock) are pruned (outcome pruned:second-writer-on-connection-with-stuck-write); what remains while a header write is stuck: new requests, PING acknowledgements, resume reading, all events on the other connection")
@@ -749,6 +853,19 @@ func TestVerif_C17(t *testing.T) {
 			run("seed-strict-limit1-shape-"+string(sh), "strict", vx.Pick(c, 3, 4), o, []string{first, "Sa1"})
 			o.conns = 2
 			run("seed-pool-limit1-shape-"+string(sh), "pool", vx.Pick(c, 3, 4), o, []string{first, "Sa1"})
+		}
+		// locally failing requests (stream id assigned, nothing written) and slow body Close
+		lfS := c17GenOpts{maxQ: 4, conns: 1, limits: "1n", maxS: 1, shapes: "gch", hdrList: true}
+		run("strict-localfail", "strict", vx.Pick(c, 4, 6), lfS, nil)
+		lfP := c17GenOpts{maxQ: 4, conns: 2, limits: "1n", maxS: 1, shapes: "gch", hdrList: true}
+		run("pool-localfail", "pool", vx.Pick(c, 4, 5), lfP, nil)
+		// deeper after the server has announced its header-list limit, with no stream limit and with limit 1; later requests plain or oversized with a slow Close
+		for _, lim := range "n1" {
+			pre := []string{"Q", "Sa" + string(lim) + "h"}
+			o := c17GenOpts{maxQ: 5, conns: 1, limits: "1n", maxS: 2, shapes: "h", hdrList: true}
+			run("seed-strict-hdrlimit-streams-"+string(lim), "strict", vx.Pick(c, 4, 5), o, pre)
+			o.conns, o.maxS = 2, 1
+			run("seed-pool-hdrlimit-streams-"+string(lim), "pool", vx.Pick(c, 4, 5), o, pre)
 		}
 		sd := vx.Pick(c, 3, 4)
 		seedO := c17GenOpts{maxQ: 4, conns: 1, limits: "012n", maxS: 3, refused: true}
